@@ -119,6 +119,21 @@ branch, so the composition below is the whole function. -/
 def toCharsFixed (mantissa : Nat) (exponent : Int) (sign : Bool) (precision : Nat) : List Char :=
   renderParts sign (layoutStage (trimStage mantissa (decimalLength17 mantissa) exponent precision))
 
+/-! ### specification of the rounding (used by the theorems, not by the port) -/
+
+/-- `k·10^q` rounded to `p` decimals, ties to the even last digit — as a decimal `(digits, exponent)` -/
+def rheDec (k : Nat) (q : Int) (p : Nat) : Nat × Int :=
+  if (p : Int) < -q then
+    let d := (-q - p).toNat
+    let a := k / 10 ^ d
+    let r := k % 10 ^ d
+    (if 2 * r > 10 ^ d ∨ (2 * r = 10 ^ d ∧ a % 2 = 1) then a + 1 else a, -(p : Int))
+  else (k, q)
+
+/-- two decimals `(digits, exponent)` denote the same number -/
+def SameDec (a b : Nat × Int) : Prop :=
+  a.1 * 10 ^ (a.2 - b.2).toNat = b.1 * 10 ^ (b.2 - a.2).toNat
+
 /-- `copy_special_str(result, sign, exponent != 0, mantissa != 0)` -/
 def specialStr (sign : Bool) (exponentNZ mantissaNZ : Bool) : List Char :=
   if mantissaNZ then "NaN".toList
